@@ -190,7 +190,9 @@ ModifyField(f) ==
                \cup {SetLast(f, [x EXCEPT !.hd = TRUE, !.def = d]) : d \in defaults}
                \cup (IF f.syntax # "editions" THEN {SetLast(f, [x EXCEPT !.packed = v]) : v \in {"t", "f"}} ELSE {})
                \cup {SetLast(f, [x EXCEPT !.lazy = TRUE]), SetLast(f, [x EXCEPT !.dep = TRUE])}
-               \cup (IF f.syntax = "editions" THEN {SetLast(f, [x EXCEPT !.feat[ff.k] = ff.v]) : ff \in FieldFeatures} ELSE {})
+               \* (field_presence is a feature of singular fields)
+               \cup (IF f.syntax = "editions"
+                     THEN {SetLast(f, [x EXCEPT !.feat[ff.k] = ff.v]) : ff \in {q \in FieldFeatures : q.k # "fp" \/ x.label = 1}} ELSE {})
 
 MsgFeatures == {[k |-> "fp", v |-> "IMPLICIT"], [k |-> "me", v |-> "DELIMITED"], [k |-> "et", v |-> "CLOSED"], [k |-> "jf", v |-> "LEGACY_BEST_EFFORT"],
                 [k |-> "ga", v |-> "API_OPAQUE"]}
